@@ -162,7 +162,7 @@ func sysC01(t *testing.T, prop string) {
 		faults = []string{"sigkill-active-proxy", "relay-tcp-cut"}
 	}
 	for fi, f := range faults {
-		if main.done || main.err != "" {
+		if d, e := main.state(); d || e != "" {
 			break
 		}
 		ap, fc := s.activeProxy()
@@ -211,6 +211,7 @@ func sysC01(t *testing.T, prop string) {
 		}
 		res.Obs("faults_"+f, 1)
 		res.Obs("faults_total", 1)
+		faultAt := time.Now()
 		// bounded progress after the fault: the stream must move on
 		if s.waitProgress(main, 1<<20, 240*time.Second) {
 			if s.progress(main) > before {
@@ -223,7 +224,21 @@ func sysC01(t *testing.T, prop string) {
 			p0 := atomic.LoadInt64(&s.front.clientPolls)
 			time.Sleep(30 * time.Second)
 			p1 := atomic.LoadInt64(&s.front.clientPolls)
-			if len(dead) > 0 {
+			// state-based stall verdict: a relay connection that was opened after the
+			// fault, has been open for more than 150 s (KCP's largest retransmission
+			// timeout is 60 s) and keeps carrying upstream bytes, while neither end
+			// received a single further byte of the stream
+			stalledOn := ""
+			s.fwd.mu.Lock()
+			for _, c := range s.fwd.conns {
+				if atomic.LoadInt32(&c.closed) == 0 && c.openedAt.After(faultAt) && time.Since(c.openedAt) > 150*time.Second && atomic.LoadInt64(&c.up) > 20000 {
+					stalledOn = fmt.Sprintf("relay connection open for %v with %d bytes up / %d bytes down", time.Since(c.openedAt).Round(time.Second), atomic.LoadInt64(&c.up), atomic.LoadInt64(&c.down))
+				}
+			}
+			s.fwd.mu.Unlock()
+			if stalledOn != "" && len(dead) == 0 {
+				res.Violate("c01:no-progress-with-live-relay-connection", fmt.Sprintf("after %s the stream did not move for 240 s although a new proxy is relaying: %s", f, stalledOn), map[string]interface{}{"case": fmt.Sprintf("fault/%d/%s", fi, f)})
+			} else if len(dead) > 0 {
 				res.Violate("c01:process-died-after-fault:"+f, fmt.Sprintf("after %s the stream did not move for 240 s; processes that exited on their own: %v", f, dead), map[string]interface{}{"case": fmt.Sprintf("fault/%d/%s", fi, f), "panics": s.panicLines()})
 			} else if p1 == p0 && s.fwd.busiest() == nil {
 				res.Violate("c01:client-gave-up-while-stream-open:"+f, fmt.Sprintf("after %s the stream did not move for 240 s, no relay connection is open and the client sent no further rendezvous request in 30 s although proxies are polling", f), map[string]interface{}{"case": fmt.Sprintf("fault/%d/%s", fi, f)})
@@ -244,22 +259,23 @@ func sysC01(t *testing.T, prop string) {
 		res.Eval(1)
 		ss.mu.Lock()
 		dv := ss.downVerified
+		ssDone, ssErr := ss.done, ss.err
 		ss.mu.Unlock()
 		s.or.mu.Lock()
 		uv := s.or.plans[ss.tag].upVerified
 		s.or.mu.Unlock()
 		res.Obs("bytes_verified_down", int64(dv))
 		res.Obs("bytes_verified_up", int64(uv))
-		rec := map[string]interface{}{"case": fmt.Sprintf("sys/%x", ss.tag), "len_up": ss.lenUp, "len_down": ss.lenDown, "up_verified": uv, "down_verified": dv, "error": ss.err, "completed": ss.done, "relay_connections": atomic.LoadInt64(&s.fwd.total)}
+		rec := map[string]interface{}{"case": fmt.Sprintf("sys/%x", ss.tag), "len_up": ss.lenUp, "len_down": ss.lenDown, "up_verified": uv, "down_verified": dv, "error": ssErr, "completed": ssDone, "relay_connections": atomic.LoadInt64(&s.fwd.total)}
 		res.Sample(3, rec)
-		if ss.done {
+		if ssDone {
 			res.Obs("sessions_completed", 1)
 			if dv != ss.lenDown || uv != ss.lenUp {
 				res.Violate("stream:short:completed-session", fmt.Sprintf("session completed but verified %d/%d up, %d/%d down", uv, ss.lenUp, dv, ss.lenDown), rec)
 			}
-		} else if ss.err != "" && ss.err != "watchdog" {
+		} else if ssErr != "" && ssErr != "watchdog" {
 			// an application-visible end while proxies are available
-			res.Violate("c01:session-ended-although-proxies-available", fmt.Sprintf("the SOCKS stream ended with %q after %d/%d up and %d/%d down", ss.err, uv, ss.lenUp, dv, ss.lenDown), rec)
+			res.Violate("c01:session-ended-although-proxies-available", fmt.Sprintf("the SOCKS stream ended with %q after %d/%d up and %d/%d down", ssErr, uv, ss.lenUp, dv, ss.lenDown), rec)
 		} else {
 			res.Inconcl("session did not complete before the watchdog")
 		}
@@ -480,7 +496,7 @@ func sysC08(t *testing.T) {
 				}
 			}
 		}
-		if ss.done {
+		if d, _ := ss.state(); d {
 			res.Obs(fmt.Sprintf("session_completed_keep=%v", keep), 1)
 		}
 	}
